@@ -881,3 +881,64 @@ def loop_carried_aliases(prog, fi):
             if sn.idx in reach:
                 out.append((st, stored, changed[stored]))
     return out
+
+
+def absorbing_methods(prog):
+    """{method name: [(FuncInfo, parameter, attribute)]}: methods that keep a parameter object as `self.A = p` and also update `self.A` in
+    place (`self.A += ...`) -- the caller's object becomes the accumulator, so each receiver needs an object of its own."""
+    out = {}
+    for fi in prog.functions.values():
+        if fi.cls is None or not fi.self_name:
+            continue
+        ps = set(fi.params) - {fi.self_name}
+        kept = {}
+        aug = set()
+        for s_ in self_stores(fi):
+            if s_.kind == "plain" and isinstance(s_.value, ast.Name) and s_.value.id in ps:
+                kept[s_.attr] = s_.value.id
+            elif s_.kind == "aug":
+                aug.add(s_.attr)
+        for a_ in sorted(set(kept) & aug):
+            out.setdefault(fi.name, []).append((fi, kept[a_], a_))
+    return out
+
+
+def shared_accumulator_arguments(prog, fi, absorbing=None):
+    """[(call, name, FuncInfo of the absorbing method)]: a call of an absorbing method inside a loop whose argument is a plain name that the
+    loop does not bind to a new object in every iteration (bound before the loop, or a copy of such a name)."""
+    from .cfg import cfg_of
+    absorbing = absorbing if absorbing is not None else absorbing_methods(prog)
+    out = []
+    env = terms_of(fi).env
+    loops = [l for l in walk_local(fi.node) if isinstance(l, (ast.For, ast.While))]
+    for loop in loops:
+        inner_stmts = {id(x) for st in loop.body for x in ast.walk(st)}
+        for x in [x for st in loop.body for x in ast.walk(st)]:
+            if not (isinstance(x, ast.Call) and isinstance(x.func, ast.Attribute) and x.func.attr in absorbing):
+                continue
+            cands = absorbing[x.func.attr]
+            if len(prog.methods_named(x.func.attr)) != len({c[0].qual for c in cands}):
+                continue                                  # other methods of that name do not absorb: receiver unknown
+            for (m, p, _a) in cands[:1]:
+                arg = None
+                ps = [q for q in m.params if q != m.self_name]
+                if p in ps and ps.index(p) < len(x.args):
+                    arg = x.args[ps.index(p)]
+                for k in x.keywords:
+                    if k.arg == p:
+                        arg = k.value
+                seen = set()
+                while isinstance(arg, ast.Name) and arg.id not in seen:
+                    seen.add(arg.id)
+                    bs = [b for b in env.bindings.get(arg.id, []) if b.kind != "param"]
+                    inside = [b for b in bs if id(b.stmt) in inner_stmts]
+                    if not inside:
+                        out.append((x, arg.id, m))
+                        break
+                    # bound in the loop: a copy of another name is followed, anything else counts as a new object
+                    vals = [b.value for b in inside]
+                    if len(vals) == 1 and isinstance(vals[0], ast.Name):
+                        arg = vals[0]
+                    else:
+                        break
+    return out
